@@ -73,7 +73,7 @@ CHECKS = {
         'members have one name; the three premises are decided by extracted checkers (coq/model/PackageCheck.v) on the model image of every '
         'real document the check saves, and both recorded findings of this clause are inputs on which the first premise is false. Tied by correspondence of member order, STORED flags, bytes and manifest rows, and by an oracle reading the '
         'raw first local header, the central directory and the manifest independently.',
-   note='Axioms: none. XML part payloads are symbolic here (their content is C01/C02/C10); zipfile\'s byte layout is trusted. Recorded findings: a picture named like a reserved member; an object attached before its parent (the C16 finding seen from here).',
+   note='Axioms: none. XML part payloads are symbolic here (their content is C01/C02/C10); zipfile\'s byte layout is trusted. Recorded findings: a picture named like a reserved member; an object attached before its parent (the C16 finding seen from here); a loaded object\'s picture registered again on the object.',
    tech='Coq proof over a model of the package writer (induction on the object tree) + correspondence',
    ref='5/C03'),
  'C04': dict(
